@@ -245,6 +245,9 @@ func ParseInstalled(installed io.Reader) ([]*InstalledPackage, error) { //nolint
 	packages := []*InstalledPackage{}
 
 	indexScanner := bufio.NewScanner(installed)
+	// The writer puts no bound on the length of a line (a D: or p: line can exceed
+	// bufio's default 64KB token, see ParsePackageIndex): allow the same 1MB here.
+	indexScanner.Buffer(make([]byte, 16*1024), 1024*1024)
 
 	pkg := &InstalledPackage{}
 	linenr := 1
@@ -381,6 +384,12 @@ func ParseInstalled(installed io.Reader) ([]*InstalledPackage, error) { //nolint
 		}
 
 		linenr++
+	}
+
+	// A line that does not fit even the enlarged buffer stops the scanner:
+	// report it instead of returning a silently truncated database.
+	if err := indexScanner.Err(); err != nil {
+		return nil, fmt.Errorf("cannot parse installed database at line %d: %w", linenr, err)
 	}
 
 	return packages, nil
